@@ -1396,6 +1396,24 @@ def _c09_relational_errors(ctx):
             ('preimage', [tr, src, 'n:x=l:-1,n:y=n:xp', 'n:xp', fa]),
             ('preimage', [tr, src, 'n:x=l:-3', '', fa]),
         ]
+        def unvalidated(args):
+            """A rename VALUE that is an undeclared name or a level outside the order is validated
+            nowhere by `image` / `preimage`: it raises (TypeError / KeyError) only if the recursion
+            reaches a node at the key's level on the branch it takes, and which branch is taken
+            (fused recursion or rename-conjoin-quantify) depends on the order.  For these calls
+            — outside every documented precondition — whether the call raises may legitimately
+            depend on a reordering; C09 speaks of the references that are RETURNED and C17 of
+            the state after a failure, and both are still checked below."""
+            for pair in args[2].split(','):
+                if '=' not in pair:
+                    continue
+                v = pair.split('=')[1]
+                if v.startswith('n:') and v[2:] not in lvl:
+                    return True
+                if v.startswith('l:') and not (0 <= int(v[2:]) < len(lvl)):
+                    return True
+            return False
+
         for op, args in jobs:
             ref_s = replay_lines(ctx, lines)
             b0 = ref_s.mgr(0)
@@ -1419,7 +1437,10 @@ def _c09_relational_errors(ctx):
                 if ans == 'err NeedsReordering':
                     bad.append('the internal reordering signal was raised to the caller')
                 elif ans != ans0:
-                    bad.append(f'{ans0} without reordering, {ans} with a request at {k}')
+                    if unvalidated(args):
+                        ctx.count('rejected-outcome-depends-on-order:' + op)
+                    else:
+                        bad.append(f'{ans0} without reordering, {ans} with a request at {k}')
                 if b._last_len is None:
                     bad.append('reordering is no longer enabled afterwards')
                 if b._reordering_context:
